@@ -265,7 +265,7 @@ class Runner:
                     cur = bounds.get(k, default) if k else default
                     if cur >= q.max_unwind:
                         rec['verdict'] = 'UNWIND-LIMIT'; rec['unwind_limit_at'] = k; return None, out
-                    nv = min(q.max_unwind, cur * 2 if cur < 8 else cur + max(2, cur // 2))
+                    nv = min(q.max_unwind, cur * 2 if cur < 64 else cur + max(2, cur // 2))
                     if k: bounds[k] = nv
                     else: default = nv
                 continue
